@@ -112,7 +112,7 @@ fn main() {
         match prop {
             #[cfg(feature = "full")]
             "C18" => props::c18::worker(ctx, i, n),
-            #[cfg(feature = "full")]
+            #[cfg(feature = "f-decstack")]
             "C04" => props::c04::worker(ctx),
             _ => machinery("no worker mode for this property"),
         }
